@@ -42,6 +42,34 @@ def Frame.resting : Frame → Bool
   | .cleanup _ => false
   | _ => true
 
+/-- The clean-up of an exclusive system is the first command on the world queue (and only the trackers of its kind may be
+    flagged), or nothing is flagged and no clean-up is queued. -/
+def Pending (s : St) : Prop :=
+  (∃ k tl, s.wq = Cmd.cleanup k :: tl ∧ cleanList tl ∧ SubFlags s k) ∨ (Idle s ∧ cleanList s.wq)
+
+theorem pending_of_settled {s : St} (hi : Idle s) (hw : s.wq = []) : Pending s :=
+  Or.inr ⟨hi, by rw [hw]; intro c hc; cases hc⟩
+
+/-- The stack applies the world queue (a poll or a flush) before anything that needs settled trackers: only frames of the
+    collector lie above that poll / flush. (A command applied in-line by an exclusive body starts its runner — collector,
+    poll — over the body's queued clean-up.) -/
+def Leads : List Frame → Prop
+  | .gc :: fs => Leads fs
+  | .despawnWork _ :: fs => Leads fs
+  | .poll :: _ => True
+  | .flush :: _ => True
+  | _ => False
+
+/-- A collector frame on top of an unsettled state must lead to a poll. -/
+def Lead1 (s : St) (g : Frame) (rest : List Frame) : Prop :=
+  match g with
+  | .gc => (Idle s ∧ s.wq = []) ∨ Leads rest
+  | .despawnWork _ => (Idle s ∧ s.wq = []) ∨ Leads rest
+  | _ => True
+
+theorem lead1_of_settled {s : St} (hi : Idle s) (hw : s.wq = []) (g : Frame) (rest : List Frame) : Lead1 s g rest := by
+  cases g <;> first | trivial | exact Or.inl ⟨hi, hw⟩
+
 /-- What must hold while frame `f` is on top of the stack. -/
 def TopOK (s : St) : Frame → Prop
   | .bodyActs _ k _ acc => SubFlags s k ∧ cleanList acc ∧ s.wq = []
@@ -50,6 +78,10 @@ def TopOK (s : St) : Frame → Prop
   | .flush => (∃ k tl, s.wq = Cmd.cleanup k :: tl ∧ cleanList tl ∧ SubFlags s k) ∨ (Idle s ∧ cleanList s.wq)
   | .batch cs => (∃ k tl, cs = Cmd.cleanup k :: tl ∧ cleanList tl ∧ SubFlags s k ∧ s.wq = []) ∨ (Idle s ∧ cleanList cs ∧ s.wq = [])
   | .topActs _ _ => Idle s ∧ cleanList s.wq
+  | .runnerStart _ _ => Pending s
+  | .gc => Pending s
+  | .despawnWork _ => Pending s
+  | .poll => Pending s
   | _ => Idle s ∧ s.wq = []
 
 structure FlagInv (s : St) : Prop where
@@ -57,6 +89,9 @@ structure FlagInv (s : St) : Prop where
     | [] => Idle s ∧ s.wq = []
     | f :: _ => TopOK s f
   below : ∀ g ∈ s.stack.tail, g.clean ∧ g.resting = true
+  lead : match s.stack with
+    | [] => True
+    | f :: rest => Lead1 s f rest
 
 /-- A resting clean frame is fine on top of an idle state with an empty world queue. -/
 theorem topOK_reveal (s : St) (g : Frame) (hi : Idle s) (hw : s.wq = []) (hc : g.clean) (hr : g.resting = true) : TopOK s g := by
@@ -64,26 +99,36 @@ theorem topOK_reveal (s : St) (g : Frame) (hi : Idle s) (hw : s.wq = []) (hc : g
   case batch cs => exact Or.inr ⟨hi, hc, hw⟩
   case flush => exact Or.inr ⟨hi, by rw [hw]; intro c hc; cases hc⟩
   case exclActs => exact Or.inr ⟨hi, by rw [hw]; intro c hc; cases hc⟩
+  case runnerStart => exact pending_of_settled hi hw
+  case gc => exact pending_of_settled hi hw
+  case despawnWork => exact pending_of_settled hi hw
+  case poll => exact pending_of_settled hi hw
   all_goals cases hr
 
 theorem flag_pop {s' : St} {rest : List Frame} (hst : s'.stack = rest) (hi : Idle s') (hw : s'.wq = [])
     (hb : ∀ g ∈ rest, g.clean ∧ g.resting = true) : FlagInv s' := by
-  constructor
+  refine ⟨?_, ?_, ?_⟩
   · rw [hst]
     cases rest with
     | nil => exact ⟨hi, hw⟩
     | cons g rest => exact topOK_reveal s' g hi hw (hb g (by simp)).1 (hb g (by simp)).2
   · rw [hst]; intro g hg; exact hb g (List.mem_of_mem_tail hg)
+  · rw [hst]
+    cases rest with
+    | nil => trivial
+    | cons g rest => exact lead1_of_settled hi hw g rest
 
 theorem flag_push {s' : St} {g : Frame} {gs rest : List Frame} (hst : s'.stack = g :: (gs ++ rest)) (ht : TopOK s' g)
-    (hgs : ∀ x ∈ gs, x.clean ∧ x.resting = true) (hb : ∀ x ∈ rest, x.clean ∧ x.resting = true) : FlagInv s' := by
-  constructor
+    (hgs : ∀ x ∈ gs, x.clean ∧ x.resting = true) (hb : ∀ x ∈ rest, x.clean ∧ x.resting = true)
+    (hl : Lead1 s' g (gs ++ rest) := by trivial) : FlagInv s' := by
+  refine ⟨?_, ?_, ?_⟩
   · rw [hst]; exact ht
   · rw [hst]; intro x hx
     simp only [List.tail_cons] at hx
     rcases List.mem_append.mp hx with h | h
     · exact hgs x h
     · exact hb x h
+  · rw [hst]; exact hl
 
 /-! ### how the helper functions treat the flags -/
 
@@ -254,13 +299,16 @@ end Cobweb
 namespace Cobweb
 
 theorem flag_idle_all {s' : St} (hi : Idle s') (hw : s'.wq = []) (hall : allOK s'.stack) : FlagInv s' := by
-  constructor
+  refine ⟨?_, ?_, ?_⟩
   · cases hst : s'.stack with
     | nil => exact ⟨hi, hw⟩
     | cons g rest =>
       have := hall g (by rw [hst]; simp)
       exact topOK_reveal s' g hi hw this.1 this.2
   · intro g hg; exact hall g (List.mem_of_mem_tail hg)
+  · cases hst : s'.stack with
+    | nil => trivial
+    | cons g rest => exact lead1_of_settled hi hw g rest
 
 theorem pollRemovals_clean (s : St) : cleanList (pollRemovals s).2 := by
   unfold pollRemovals
@@ -300,6 +348,29 @@ theorem Fl_despawn1 (s : St) (e : Nat) : Fl (despawn1 s e) = Fl s := by simp [Fl
 theorem Fl_emit (s : St) (e : Ev) : Fl (s.emit e) = Fl s := rfl
 
 theorem idle_of_Fl {s s' : St} (h : Fl s' = Fl s) (hi : Idle s) : Idle s' := by unfold Idle; rw [h]; exact hi
+
+theorem subFlags_of_Fl {s s' : St} (h : Fl s' = Fl s) (k : Kind) (hs : SubFlags s k) : SubFlags s' k := by
+  simp only [Fl, Prod.mk.injEq] at h
+  cases k <;> simp only [SubFlags, Idle, Fl, Prod.mk.injEq] at hs ⊢ <;> simp_all
+
+theorem pending_same {s s' : St} (hfl : Fl s' = Fl s) (hwq : s'.wq = s.wq) (h : Pending s) : Pending s' := by
+  rcases h with ⟨k, tl, hw, htl, hsub⟩ | ⟨hi, hcl⟩
+  · exact Or.inl ⟨k, tl, by rw [hwq]; exact hw, htl, subFlags_of_Fl hfl k hsub⟩
+  · exact Or.inr ⟨idle_of_Fl hfl hi, by rw [hwq]; exact hcl⟩
+
+/-- Popping a collector frame in an unsettled state reveals another collector frame, the poll or a flush. -/
+theorem flag_reveal_leads {s' : St} {rest : List Frame} (hst : s'.stack = rest) (hP : Pending s') (hl : Leads rest)
+    (hb : allOK rest) : FlagInv s' := by
+  cases rest with
+  | nil => exact absurd hl (by simp [Leads])
+  | cons g r =>
+    have hbr : ∀ x ∈ r, x.clean ∧ x.resting = true := fun x hx => hb x (List.mem_cons_of_mem _ hx)
+    cases g <;> simp only [Leads] at hl
+    case gc => exact flag_push (g := .gc) (gs := []) (by simpa using hst) hP (by intro x hx; cases hx) hbr (Or.inr (by simpa using hl))
+    case despawnWork w =>
+      exact flag_push (g := .despawnWork w) (gs := []) (by simpa using hst) hP (by intro x hx; cases hx) hbr (Or.inr (by simpa using hl))
+    case poll => exact flag_push (g := .poll) (gs := []) (by simpa using hst) hP (by intro x hx; cases hx) hbr
+    case flush => exact flag_push (g := .flush) (gs := []) (by simpa using hst) hP (by intro x hx; cases hx) hbr
 
 /-- **The flag invariant is preserved by every frame.** -/
 theorem flag_runFrame (p : Prog) (hh : Hist) {s : St} {f : Frame} {rest : List Frame} (hc : Ctl s) (ho : OnceInv s)
@@ -363,39 +434,42 @@ theorem flag_runFrame (p : Prog) (hh : Hist) {s : St} {f : Frame} {rest : List F
       cases k <;> simp only [SubFlags, Idle, Fl, Prod.mk.injEq] at hsub ⊢ <;> simp_all
   | exclActs sys i =>
     simp only [runFrame, doExclActs]
-    rcases htop with ⟨k, tl, hwq, htl, hsub⟩ | ⟨hi, hcl⟩
-    · split
-      · refine flag_push (g := .flush) (gs := []) (by simp [St.push, St.emit]) ?_ (by intro x hx; cases hx) hrest
-        exact Or.inl ⟨k, tl, by simp [St.emit, hwq], htl, hsub⟩
-      · rename_i a _
-        have hnew : ∃ k' tl', (enqueue ({ s with stack := rest } : St) a).1.wq ++ (enqueue ({ s with stack := rest } : St) a).2 = Cmd.cleanup k' :: tl' ∧
-            cleanList tl' ∧ SubFlags (enqueue ({ s with stack := rest } : St) a).1 k' := by
-          refine ⟨k, tl ++ (enqueue ({ s with stack := rest } : St) a).2, by simp [hwq], cleanList_append htl (enqueue_clean _ a), ?_⟩
-          have hfl := Fl_enqueue ({ s with stack := rest } : St) a
+    have hP : Pending ({ s with stack := rest } : St) := htop
+    split
+    · -- end of the body: the final flush
+      refine flag_push (g := .flush) (gs := []) (by simp [St.push, St.emit]) ?_ (by intro x hx; cases hx) hrest
+      rcases htop with ⟨k, tl, hwq, htl, hsub⟩ | ⟨hi, hcl⟩
+      · exact Or.inl ⟨k, tl, by simp [St.emit, hwq], htl, hsub⟩
+      · exact Or.inr ⟨by simpa [Idle, Fl, St.emit] using hi, by simpa [St.emit] using hcl⟩
+    · -- a command applied in-line: its runner starts over whatever is queued
+      rename_i t _
+      refine flag_push (g := .runnerStart t .plain) (gs := [.exclActs sys (i + 1)]) (by simp [St.push]) ?_
+        (by intro x hx; simp at hx; subst hx; exact ⟨trivial, rfl⟩) hrest
+      rcases hP with ⟨k, tl, hwq, htl, hsub⟩ | ⟨hi, hcl⟩
+      · exact Or.inl ⟨k, tl, by simpa [St.push] using hwq, htl, by cases k <;> simpa [SubFlags, Idle, Fl, St.push] using hsub⟩
+      · exact Or.inr ⟨by simpa [Idle, Fl, St.push] using hi, by simpa [St.push] using hcl⟩
+    · rename_i a _ _
+      have hP' : Pending ({ (enqueue ({ s with stack := rest } : St) a).1 with
+          wq := (enqueue ({ s with stack := rest } : St) a).1.wq ++ (enqueue ({ s with stack := rest } : St) a).2 } : St) := by
+        have hfl := Fl_enqueue ({ s with stack := rest } : St) a
+        rcases htop with ⟨k, tl, hwq, htl, hsub⟩ | ⟨hi, hcl⟩
+        · refine Or.inl ⟨k, tl ++ (enqueue ({ s with stack := rest } : St) a).2, by simp [hwq], cleanList_append htl (enqueue_clean _ a), ?_⟩
           simp only [Fl, Prod.mk.injEq] at hfl
           cases k <;> simp only [SubFlags, Idle, Fl, Prod.mk.injEq] at hsub ⊢ <;> simp_all
-        obtain ⟨k', tl', e1, e2, e3⟩ := hnew
-        split
-        · refine flag_push (g := .flush) (gs := [.exclActs sys (i + 1)]) (by simp [St.push]) ?_
-            (by intro x hx; simp at hx; subst hx; exact ⟨trivial, rfl⟩) hrest
-          exact Or.inl ⟨k', tl', by simpa [St.push] using e1, e2, by cases k' <;> simpa [SubFlags, Idle, Fl, St.push] using e3⟩
-        · refine flag_push (g := .exclActs sys (i + 1)) (gs := []) (by simp [St.push]) ?_ (by intro x hx; cases hx) hrest
-          exact Or.inl ⟨k', tl', by simpa [St.push] using e1, e2, by cases k' <;> simpa [SubFlags, Idle, Fl, St.push] using e3⟩
-    · split
-      · refine flag_push (g := .flush) (gs := []) (by simp [St.push, St.emit]) ?_ (by intro x hx; cases hx) hrest
-        exact Or.inr ⟨by simpa [Idle, Fl, St.emit] using hi, by simpa [St.emit] using hcl⟩
-      · rename_i a _
-        have hfl := Fl_enqueue ({ s with stack := rest } : St) a
-        have hi' : Idle (enqueue ({ s with stack := rest } : St) a).1 := by
-          simp only [Idle] at hi ⊢; rw [hfl]; exact hi
-        have hcl' : cleanList ((enqueue ({ s with stack := rest } : St) a).1.wq ++ (enqueue ({ s with stack := rest } : St) a).2) := by
-          rw [enqueue_wq]; exact cleanList_append hcl (enqueue_clean _ a)
-        split
-        · refine flag_push (g := .flush) (gs := [.exclActs sys (i + 1)]) (by simp [St.push]) ?_
-            (by intro x hx; simp at hx; subst hx; exact ⟨trivial, rfl⟩) hrest
-          exact Or.inr ⟨by simpa [Idle, Fl, St.push] using hi', by simpa [St.push] using hcl'⟩
-        · refine flag_push (g := .exclActs sys (i + 1)) (gs := []) (by simp [St.push]) ?_ (by intro x hx; cases hx) hrest
-          exact Or.inr ⟨by simpa [Idle, Fl, St.push] using hi', by simpa [St.push] using hcl'⟩
+        · refine Or.inr ⟨?_, ?_⟩
+          · simp only [Idle] at hi ⊢; simp only [Fl] at hfl hi ⊢; rw [← hi]; exact hfl
+          · show cleanList ((enqueue ({ s with stack := rest } : St) a).1.wq ++ (enqueue ({ s with stack := rest } : St) a).2)
+            rw [enqueue_wq]; exact cleanList_append hcl (enqueue_clean _ a)
+      have hpush : ∀ fs, Pending (({ (enqueue ({ s with stack := rest } : St) a).1 with
+          wq := (enqueue ({ s with stack := rest } : St) a).1.wq ++ (enqueue ({ s with stack := rest } : St) a).2 } : St).push fs) := by
+        intro fs
+        rcases hP' with ⟨k, tl, hwq, htl, hsub⟩ | ⟨hi, hcl⟩
+        · exact Or.inl ⟨k, tl, by simpa [St.push] using hwq, htl, by cases k <;> simpa [SubFlags, Idle, Fl, St.push] using hsub⟩
+        · exact Or.inr ⟨by simpa [Idle, Fl, St.push] using hi, by simpa [St.push] using hcl⟩
+      split
+      · exact flag_push (g := .flush) (gs := [.exclActs sys (i + 1)]) (by simp [St.push]) (hpush _)
+          (by intro x hx; simp at hx; subst hx; exact ⟨trivial, rfl⟩) hrest
+      · exact flag_push (g := .exclActs sys (i + 1)) (gs := []) (by simp [St.push]) (hpush _) (by intro x hx; cases hx) hrest
   | topActs t i =>
     obtain ⟨hi, hcl⟩ := htop
     simp only [runFrame, doTopActs]
@@ -421,11 +495,11 @@ theorem flag_runFrame (p : Prog) (hh : Hist) {s : St} {f : Frame} {rest : List F
     obtain ⟨hi, hw⟩ := htop
     exact flag_pop rfl hi hw hrest
   | runnerStart sys k =>
-    obtain ⟨hi, hw⟩ := htop
-    apply flag_idle_all (by exact hi) (by first | exact hw | simp [hw])
-    show allOK ([Frame.gc, .poll, .runnerLookup sys k s.counter] ++ rest)
-    refine allOK_append ?_ hrest
-    intro g hg; simp at hg; rcases hg with rfl | rfl | rfl <;> exact ⟨trivial, rfl⟩
+    -- (the state may be unsettled: a command applied in-line by an exclusive body; the collector and the poll come first)
+    have hP : Pending (runFrame p hh { s with stack := rest } (.runnerStart sys k)) :=
+      pending_same (by simp [runFrame, doRunnerStart, Fl, St.push, St.emit]) (by simp [runFrame, doRunnerStart, St.push, St.emit]) htop
+    exact flag_push (g := .gc) (gs := [.poll, .runnerLookup sys k s.counter]) (by simp [runFrame, doRunnerStart, St.push, St.emit]) hP
+      (by intro g hg; simp at hg; rcases hg with rfl | rfl <;> exact ⟨trivial, rfl⟩) hrest (Or.inr (by simp [Leads]))
   | runnerLookup sys k idx =>
     obtain ⟨hi, hw⟩ := htop
     simp only [runFrame, doRunnerLookup]
@@ -526,34 +600,53 @@ theorem flag_runFrame (p : Prog) (hh : Hist) {s : St} {f : Frame} {rest : List F
     obtain ⟨hi, hw⟩ := htop
     exact flag_pop (by simp [runFrame]) (cleanupK_idle _ k (setupK_subFlags _ k sys hi)) (by simp [runFrame, hw]) hrest
   | gc =>
-    obtain ⟨hi, hw⟩ := htop
+    have hlead : Lead1 s .gc rest := by have := h.lead; rw [hs] at this; exact this
+    have hP : Pending ({ s with stack := rest } : St) := htop
     simp only [runFrame, doGc]
     split
-    · exact flag_idle_all (by exact hi) (by first | exact hw | simp [hw]) hrest
-    · apply flag_idle_all (by exact hi) (by first | exact hw | simp [hw])
-      simp only [St.push]
-      refine allOK_append ?_ hrest
-      intro g hg; simp at hg; rcases hg with rfl | rfl <;> exact ⟨trivial, rfl⟩
+    · rcases hlead with ⟨hi, hw⟩ | hl
+      · exact flag_idle_all (by exact hi) (by first | exact hw | simp [hw]) hrest
+      · exact flag_reveal_leads rfl hP hl hrest
+    · refine flag_push (gs := [.gc]) (rest := rest) rfl (pending_same (by simp [Fl, St.push]) (by simp [St.push]) hP)
+        (by intro x hx; simp at hx; subst hx; exact ⟨trivial, rfl⟩) hrest ?_
+      rcases hlead with ⟨hi, hw⟩ | hl
+      · exact Or.inl ⟨idle_of_Fl (by simp [Fl, St.push]) hi, by simp [St.push, hw]⟩
+      · exact Or.inr (by simpa [Leads] using hl)
   | despawnWork work =>
-    obtain ⟨hi, hw⟩ := htop
+    have hlead : Lead1 s (.despawnWork work) rest := by have := h.lead; rw [hs] at this; exact this
+    have hP : Pending ({ s with stack := rest } : St) := htop
+    -- every branch keeps the flags and the world queue; it pops, or pushes one more collector frame
+    have pushOne : ∀ (s' : St) (w' : List (Nat × Bool)), Fl s' = Fl s → s'.wq = s.wq → s'.stack = .despawnWork w' :: rest → FlagInv s' := by
+      intro s' w' hfl hwq hst'
+      refine flag_push (g := .despawnWork w') (gs := []) (by simpa using hst') (pending_same hfl hwq hP) (by intro x hx; cases hx) hrest ?_
+      rcases hlead with ⟨hi, hw⟩ | hl
+      · exact Or.inl ⟨idle_of_Fl hfl hi, by rw [hwq]; exact hw⟩
+      · exact Or.inr (by simpa using hl)
     simp only [runFrame, doDespawnWork]
     split
-    · exact flag_idle_all (by exact hi) (by first | exact hw | simp [hw]) hrest
+    · rcases hlead with ⟨hi, hw⟩ | hl
+      · exact flag_idle_all (by exact hi) (by first | exact hw | simp [hw]) hrest
+      · exact flag_reveal_leads rfl hP hl hrest
     · split
-      · apply flag_idle_all (idle_of_Fl (by simp [Fl, St.push]) hi) (by simp [St.push, hw])
-        simp only [St.push, despawn1_stack]
-        exact allOK_append (allOK_one trivial rfl) hrest
+      · rename_i e expanded work _
+        exact pushOne _ work (by simp [Fl, St.push]) (by simp [St.push]) (by simp [St.push, despawn1_stack])
       · split
-        · exact flag_idle_all (by exact hi) (by first | exact hw | simp [hw]) (allOK_append (allOK_one trivial rfl) hrest)
-        · exact flag_idle_all (by exact hi) (by first | exact hw | simp [hw]) (allOK_append (allOK_one trivial rfl) hrest)
+        · exact pushOne _ _ (by simp [Fl, St.push]) (by simp [St.push]) rfl
+        · exact pushOne _ _ (by simp [Fl, St.push]) (by simp [St.push]) rfl
   | poll =>
-    obtain ⟨hi, hw⟩ := htop
     simp only [runFrame, doPoll]
     refine flag_push (g := .flush) (gs := []) (by simp [St.push]) ?_ (by intro x hx; cases hx) hrest
-    refine Or.inr ⟨?_, ?_⟩
-    · exact idle_of_Fl (by simp [Fl]) hi
-    · simp only [pollDespawns_wq, pollRemovals_wq, hw, List.nil_append]
-      exact cleanList_append (pollRemovals_clean _) (pollDespawns_clean _)
+    have hnew : cleanList ((pollRemovals ({ s with stack := rest } : St)).2 ++ (pollDespawns (pollRemovals ({ s with stack := rest } : St)).1).2) :=
+      cleanList_append (pollRemovals_clean _) (pollDespawns_clean _)
+    rcases htop with ⟨k, tl, hwq, htl, hsub⟩ | ⟨hi, hcl⟩
+    · refine Or.inl ⟨k, tl ++ ((pollRemovals ({ s with stack := rest } : St)).2 ++ (pollDespawns (pollRemovals ({ s with stack := rest } : St)).1).2), ?_,
+        cleanList_append htl hnew, subFlags_of_Fl (by simp [Fl, St.push]) k hsub⟩
+      simp only [St.push, pollDespawns_wq, pollRemovals_wq]
+      have : ({ s with stack := rest } : St).wq = Cmd.cleanup k :: tl := hwq
+      rw [this]; simp
+    · refine Or.inr ⟨idle_of_Fl (by simp [Fl, St.push]) hi, ?_⟩
+      simp only [St.push, pollDespawns_wq, pollRemovals_wq, List.append_assoc]
+      exact cleanList_append hcl hnew
 
 end Cobweb
 
@@ -630,7 +723,7 @@ theorem flag_tick (p : Prog) (h : Hist) {s s' : St} (hc : Ctl s) (ho : OnceInv s
       exact flag_startTop (s := { s with topIdx := s.topIdx + 1 }) htop.1 htop.2 hempty s.topIdx op
     · cases ht
 
-theorem flag_default : FlagInv ({} : St) := ⟨⟨rfl, rfl⟩, by intro g hg; cases hg⟩
+theorem flag_default : FlagInv ({} : St) := ⟨⟨rfl, rfl⟩, (by intro g hg; cases hg), trivial⟩
 
 /-- All three invariants along every execution. -/
 theorem all_reach (p : Prog) (h : Hist) {s0 s : St} (hc : Ctl s0) (ho : OnceInv s0) (hf : FlagInv s0) (hr : Reach p h s0 s) :
